@@ -148,6 +148,10 @@ SNIPPETS = [
     "np.array([5, 4, 3], dtype='uint8') - np.array([6, 1, 3], dtype='uint8')", "np.diff(np.array([100, 90, 100], dtype='uint16'))",
     "np.array([100, 100], dtype='int8') + np.array([100, -100], dtype='int8')", "np.array([100, 90], dtype='uint16') * 2",
     "np.array([7, 2], dtype='int64') - np.array([9, 1], dtype='int64')",
+    "np.median(np.diff(np.array(['2020-01-01T00:00', '2020-01-01T00:01', '2020-01-01T00:03'], dtype='datetime64[m]'))).astype('timedelta64[s]').astype(float)",
+    "np.median(np.diff(np.array(['2020-01-01T00:00:00', '2020-01-01T00:00:01', '2020-01-01T00:00:03'], dtype='datetime64[s]'))).astype('timedelta64[s]').astype(float)",
+    "np.median(np.diff(np.array(['2020-01-01T00:00:00', '2020-01-01T00:00:01', '2020-01-01T00:00:03'], dtype='datetime64[ns]'))).astype('timedelta64[s]').astype(float)",
+    "np.datetime_data(np.dtype('datetime64[m]'))[0] == 'm'",
     "np.ravel(np.array([[1.0, 2.0], [3.0, 4.0]]))", "np.union1d(np.flatnonzero(a > 1), np.flatnonzero(b > 1))",
     "np.union1d(np.array([3, 1]), np.array([2, 1]))", "(lambda x: (np.put(x, np.array([2, 0]), np.array([7.0, 8.0])), x)[1])(np.zeros(4))",
     "(lambda x: (np.put(x, [1, 3, 0], [5]), x)[1])(np.full((4,), 2, dtype='uint8'))",
